@@ -68,7 +68,7 @@ def make_family(name, reg0, ids, mutate=None, symbolic=True):
         try: creg = concretize(reg, eng.model()); case = {"op": "describe_all", "reg": regdsl.encode(creg).hex()}
         except Exception: case = None
         return {"outcome": "panic", "violations": [{"what": "type_description panics / does not terminate: %s" % msg, "case": case, "kind": "panic"}]}
-    return Family(name, mk, run, target_prefixes=1, on_panic=on_panic)
+    return Family(name, mk, run, target_prefixes=1, on_panic=on_panic, limit=600)    # no corpus family has more than ~150 paths on a correct tree; a cap keeps a check of a broken tree (e.g. one that sorts symbolic indices) from exploding
 
 def families(eng, tier, seed):
     C = corpus(); fams = []; rnd = random.Random(seed)
